@@ -198,6 +198,14 @@ class OTAFirmware:
                 fw_ver,
             )
             return
+        if not (0 <= fw_type <= 0xFFFF and 0 <= fw_ver <= 0xFFFF):
+            _LOGGER.error(
+                "Firmware type %s or version %s not valid, "
+                "please enter integers between 0 and 65535",
+                fw_type,
+                fw_ver,
+            )
+            return
         if fw_bin is not None:
             fware = prepare_fw(fw_bin)
             self.firmware[fw_type, fw_ver] = fware
